@@ -86,6 +86,21 @@ struct Tier {
     variants: usize,
 }
 fn tier_for(prop: &str, tier: &str) -> Tier {
+    if tier == "thorough-checked" {
+        // second engine of the thorough tier: the same simulator built with debug assertions and
+        // overflow checks (library debug_assert!s and arithmetic overflow become panics)
+        let mut t = Tier { runs: 20_000_000, cap_s: 120, variants: 0 };
+        t.variants = match prop {
+            "C06" => 48,
+            "C07" => 24,
+            "C05" => 12,
+            _ => 0,
+        };
+        if let Some(c) = std::env::var("VERIF_CAP_S").ok().and_then(|s| s.parse::<u64>().ok()) {
+            t.cap_s = c;
+        }
+        return t;
+    }
     let quick = tier != "thorough";
     let env_runs = std::env::var("VERIF_RUNS").ok().and_then(|s| s.parse::<u64>().ok());
     let mut t = match (prop, quick) {
@@ -1123,7 +1138,7 @@ fn check(prop: &str, tier: &str) -> i32 {
     let mut ev = String::new();
     ev.push_str("{\n");
     ev.push_str(&format!("  \"property_id\": {},\n", json_str(prop)));
-    ev.push_str(&format!("  \"tier\": {},\n", json_str(if tier == "thorough" { "thorough" } else { "quick" })));
+    ev.push_str(&format!("  \"tier\": {},\n", json_str(if tier.starts_with("thorough") { "thorough" } else { "quick" })));
     ev.push_str(&format!("  \"seed\": {},\n", seed));
     ev.push_str(&format!("  \"level\": {},\n", json_str(level_of(prop))));
     ev.push_str("  \"coverage\": {\n");
@@ -1167,13 +1182,29 @@ fn check(prop: &str, tier: &str) -> i32 {
     ev.push_str(&format!("    \"engine\": {},\n", json_str(if cfg!(debug_assertions) { "native, checked profile (debug assertions + overflow checks)" } else { "native, release-like profile" })));
     ev.push_str(&extra_json);
     ev.push_str(&probe_json);
+    if tier == "thorough" {
+        // summary of the checked-profile engine run by ./check just before this one
+        let cp = format!("{}/evidence/{}.checked.json", &home(), prop);
+        let fresh = std::fs::metadata(&cp).ok().and_then(|m| m.modified().ok()).and_then(|t| t.elapsed().ok()).map(|d| d.as_secs() < 3600).unwrap_or(false);
+        if fresh {
+            if let Ok(t) = std::fs::read_to_string(&cp) {
+                let grab = |key: &str| -> String {
+                    t.lines().find(|l| l.trim_start().starts_with(&format!("\"{}\":", key))).map(|l| l.trim().trim_end_matches(',').splitn(2, ':').nth(1).unwrap_or("0").trim().to_string()).unwrap_or_else(|| "0".to_string())
+                };
+                ev.push_str(&format!(
+                    "    \"checked_profile_engine\": {{\"evaluations\": {}, \"distinct_nontrivial\": {}, \"violations\": {}, \"note\": \"same simulator built with debug assertions and overflow checks; full record in {}.checked.json\"}},\n",
+                    grab("evaluations"), grab("distinct_nontrivial"), grab("violations"), prop
+                ));
+            }
+        }
+    }
     ev.push_str("    \"exhaustive\": false\n");
     ev.push_str("  },\n");
     ev.push_str("  \"assumptions\": [\"sampling of histories, not proof\", \"guard zones / poison / quarantine detect out-of-bounds and stale accesses only when they land on instrumented bytes or surface in a result\", \"the Vec-of-tags model and the harness adapter are trusted\", \"rustc/LLVM and the release-like profile used to build the library\"],\n");
     ev.push_str(&format!("  \"wall_s\": {:.2},\n", wall));
     ev.push_str(&format!("  \"violations\": {}\n", reported.len()));
     ev.push_str("}\n");
-    let evpath = format!("{}/evidence/{}.json", &home(), prop);
+    let evpath = if tier == "thorough-checked" { format!("{}/evidence/{}.checked.json", &home(), prop) } else { format!("{}/evidence/{}.json", &home(), prop) };
     std::fs::write(&evpath, ev).unwrap_or_else(|e| die2(&format!("write {}: {}", evpath, e)));
 
     for g in &gaps {
